@@ -15,7 +15,7 @@ RULE = (
     "sample() call; distinct = its (kind,b,t,n,seed,n_chains,chain) tuple; non-trivial = t>1 or b>0 or n_chains>1"
 )
 ASSUMPTIONS = ["non-overlap of streams is decided on the first 4096 64-bit outputs of each stream (no shared value, no shared window)"]
-REQUIRED = {"captures_at_log_level_DEBUG": {"quick": 30, "thorough": 150}, "schedules_checked": {"quick": 500, "thorough": 2000}, "stream_pairs_checked": {"quick": 200, "thorough": 2000}, "vi_checked": {"quick": 40, "thorough": 250}}
+REQUIRED = {"cli_schedules_checked": {"quick": 24, "thorough": 300}, "cli_schedules_with_zero_burnin": {"quick": 12, "thorough": 150}, "captures_at_log_level_DEBUG": {"quick": 30, "thorough": 150}, "schedules_checked": {"quick": 500, "thorough": 2000}, "stream_pairs_checked": {"quick": 200, "thorough": 2000}, "vi_checked": {"quick": 40, "thorough": 250}}
 GRID = {"quick": (12, 5, 8), "thorough": (24, 7, 12)}
 
 
@@ -180,6 +180,74 @@ def run_shard(rec, tier, seed, shard, nshards):
             continue
         rec.count("real_model_schedules")
         check_schedule("SparseDrugCombo", log, tags, b, t, n, res, w)
+
+    # ---------- (b') the same through the train_model command line: the numbers given there are the schedule
+    import os
+    from batchie.cli import train_model as cli_train
+
+    n_cli = 4 if tier == "quick" else 24
+    with kit.scratch_dir("vf-c17-") as tmp, kit.Patches() as P:
+        clog = []
+        ccnt = {"steps": 0}
+
+        def mk_step(orig):
+            def step(self):
+                ccnt["steps"] += 1
+                clog.append(("step", ccnt["steps"]))
+                return orig(self)
+
+            return step
+
+        def mk_state(orig):
+            def get_model_state(self):
+                clog.append(("state", ccnt["steps"]))
+                return orig(self)
+
+            return get_model_state
+
+        def mk_reset(orig):
+            def reset_model(self):
+                clog.append(("reset", ccnt["steps"]))
+                return orig(self)
+
+            return reset_model
+
+        def mk_rng(orig):
+            def set_rng(self, r):
+                clog.append(("set_rng", ccnt["steps"]))
+                return orig(self, r)
+
+            return set_rng
+
+        P.wrap(SparseDrugCombo, "step", mk_step)
+        P.wrap(SparseDrugCombo, "get_model_state", mk_state)
+        P.wrap(SparseDrugCombo, "reset_model", mk_reset)
+        P.wrap(SparseDrugCombo, "set_rng", mk_rng)
+        for ci in range(n_cli):
+            kw = gen.realistic_screen_kwargs(rng, n_rows=(4, 14), observed="all", p_double_control=0.0)
+            f_s, f_o = os.path.join(tmp, "s.h5"), os.path.join(tmp, "t.h5")
+            Screen(**kw).save_h5(f_s)
+            # zero is a value like any other on a command line: burn-in 0, seed 0, chain 0
+            b = 0 if ci % 2 == 0 else int(rng.integers(0, 5))
+            t, n = int(rng.integers(1, 4)), int(rng.integers(1, 5))
+            nch = int(rng.integers(1, 4))
+            ch = 0 if ci % 3 == 0 else int(rng.integers(nch))
+            sd = 0 if ci % 4 == 0 else int(rng.integers(0, 1000))
+            del clog[:]
+            ccnt["steps"] = 0
+            w = {"b": b, "t": t, "n": n, "n_chains": nch, "chain_index": ch, "seed": sd, "via": "train_model"}
+            rec.case(("cli", b, t, n, nch, ch, sd))
+            try:
+                kit.run_cli(cli_train.main, ["--data", f_s, "--model", "SparseDrugCombo", "--model-param", "n_embedding_dimensions=2", "--output", f_o, "--n-samples", n, "--n-burnin", b, "--thin", t, "--n-chains", nch, "--chain-index", ch, "--seed", sd])
+                res = ThetaHolder(n_thetas=1).load_h5(f_o)
+            except Exception as e:
+                rec.violation("C17/schedule/raises", "train_model raised %r" % (e,), w)
+                continue
+            rec.count("cli_schedules_checked")
+            if b == 0:
+                rec.count("cli_schedules_with_zero_burnin")
+            tags = [x[1] for x in clog if x[0] == "state"]
+            check_schedule("train_model-cli", list(clog), tags, b, t, n, res, w)
 
     # ---------- (c) streams
     import logging
